@@ -265,8 +265,14 @@ func (r *rpRun) setup(tag string) error {
 			if err != nil {
 				return err
 			}
+			// a head announced under a hash that is not the address of its contents: its signature verifies (Sync checks
+			// signatures first and merely discards a head whose signature does not), the address check then ends the request
 			t := copyEntry(e6).(*entry.Entry)
-			t.Payload = kvOp("k6-tampered")
+			sum, err := mh.Sum([]byte("not-the-address-of-"+t.Hash.String()), mh.SHA2_256, -1)
+			if err != nil {
+				return err
+			}
+			t.Hash = cid.NewCidV1(cid.DagCBOR, sum)
 			r.entries[6] = t
 		}
 	}
